@@ -98,6 +98,32 @@ impl G {
         out
     }
 
+    /// an expression over signals only (the Suspense cases: see `top_view`)
+    fn sig_expr(&mut self) -> Expr {
+        let sigs = sig_ids(&self.defs);
+        let mut leaf = |r: &mut Rng| if r.chance(4, 5) { Expr::Rd(*r.pick(&sigs)) } else { Expr::Lit(r.below(5) as i64 - 2) };
+        match self.r.below(3) {
+            0 => Expr::Rd(*self.r.pick(&sigs)),
+            1 => Expr::Add(Box::new(leaf(&mut self.r)), Box::new(leaf(&mut self.r))),
+            _ => Expr::Ite(Box::new(leaf(&mut self.r)), Box::new(leaf(&mut self.r)), Box::new(leaf(&mut self.r))),
+        }
+    }
+
+    /// the implementation-only constructors appear at the top of the view only (never below a part
+    /// that re-renders): `Suspense` over signals, `ErrorBoundary` over any expression
+    fn top_view(&mut self, depth: usize) -> ViewD {
+        if depth >= 1 && self.r.chance(1, 10) {
+            let inner = Box::new(self.view(depth - 1));
+            let v = if self.r.chance(1, 2) { ViewD::Susp(self.sig_expr(), inner) } else { ViewD::Errb(self.dyn_expr(), inner) };
+            return match self.r.below(3) {
+                0 => v,
+                1 => ViewD::Elem(*self.r.pick(TAGS), self.attrs(), Box::new(v)),
+                _ => ViewD::Seq(Box::new(ViewD::DynText(self.dyn_expr())), Box::new(v)),
+            };
+        }
+        self.view(depth)
+    }
+
     fn view(&mut self, depth: usize) -> ViewD {
         if depth == 0 {
             return match self.r.below(4) {
@@ -120,6 +146,15 @@ impl G {
                 ViewD::Elem("ul", self.attrs(), Box::new(ViewD::For(self.dyn_expr(), lists)))
             }
         }
+    }
+}
+
+fn has_susp(v: &ViewD) -> bool {
+    match v {
+        ViewD::Susp(..) => true,
+        ViewD::Text(_) | ViewD::Unit | ViewD::DynText(_) | ViewD::For(..) => false,
+        ViewD::Elem(_, _, k) | ViewD::Errb(_, k) => has_susp(k),
+        ViewD::Seq(a, b) | ViewD::Either(_, a, b) | ViewD::Show(_, a, b) => has_susp(a) || has_susp(b),
     }
 }
 
@@ -154,12 +189,17 @@ fn random_case(g: &mut G, name: &str, out: &mut String) {
         g.defs.push(Def::Memo(b));
     }
     let depth = g.r.range(1, 3);
-    let view = g.view(depth);
+    let view = g.top_view(depth);
     emit_prog(out, name, &g.defs, &view);
     let sigs = sig_ids(&g.defs);
+    // Suspense: the executor always runs to idle between writes (partial progress of an async derived and
+    // of the Suspend future that awaits it is C10's subject: F-C10-1; a disposal while a Suspend future is
+    // pending panics in the leftover task, see props/C04.known)
+    let only_idle = has_susp(&view);
     match g.r.below(3) {
         0 => writeln!(out, "idle").unwrap(),
-        1 => writeln!(out, "poll {}", g.r.below(4)).unwrap(),
+        1 if !only_idle => writeln!(out, "poll {}", g.r.below(4)).unwrap(),
+        1 => writeln!(out, "idle").unwrap(),
         _ => {}
     }
     let writes = g.r.range(3, 15);
@@ -170,6 +210,10 @@ fn random_case(g: &mut G, name: &str, out: &mut String) {
         }
         let s = *g.r.pick(&sigs);
         writeln!(out, "set {s} {}", g.r.below(5) as i64 - 1).unwrap();
+        if only_idle {
+            writeln!(out, "idle").unwrap();
+            continue;
+        }
         match g.r.below(5) {
             0 => {}
             1 | 2 => {
@@ -363,8 +407,9 @@ fn view_tags(defs: &[Def], v: &ViewD, under_dyn: bool, tags: &mut BTreeSet<&'sta
             tags.insert("for");
             on_expr(sel, tags)
         }
-        ViewD::Susp(a) => {
+        ViewD::Susp(e, a) => {
             tags.insert("suspense");
+            on_expr(e, tags);
             view_tags(defs, a, true, tags)
         }
         ViewD::Errb(e, a) => {
